@@ -37,45 +37,58 @@ def infer_redirection(url, recursive=True):
         string: Redirected url or the original url if nothing was found.
     """
 
-    redirection_split = REDIRECTION_DOMAINS_RE.split(url, 1)
+    # NOTE: looping rather than recursing, so that deeply nested redirections
+    # cannot exhaust the interpreter's stack
+    while True:
+        redirection_split = REDIRECTION_DOMAINS_RE.split(url, 1)
 
-    target = None
+        target = None
 
-    if len(redirection_split) > 1:
-        # NOTE: avoiding empty AMP redirects etc.
-        if len(redirection_split[1]):
-            target = "https://" + redirection_split[1]
+        if len(redirection_split) > 1:
+            # NOTE: avoiding empty AMP redirects etc.
+            if len(redirection_split[1]):
+                target = "https://" + redirection_split[1]
 
-    else:
-        obvious_redirect_match = re.search(OBVIOUS_REDIRECTS_RE, url)
+        else:
+            obvious_redirect_match = re.search(OBVIOUS_REDIRECTS_RE, url)
 
-        if obvious_redirect_match is not None:
-            if obvious_redirect_match.group(1) == "q":
-                if "/url?q=" not in url and "/redirect" not in url:
-                    return url
+            if obvious_redirect_match is not None:
+                if obvious_redirect_match.group(1) == "q":
+                    if "/url?q=" not in url and "/redirect" not in url:
+                        return url
 
-            potential_target = unquote(obvious_redirect_match.group(2))
+                potential_target = unquote(obvious_redirect_match.group(2))
 
-            # Basic HTTPS
-            if potential_target.startswith("https://") and len(potential_target) > 8:
-                target = potential_target
+                # Basic HTTPS
+                if (
+                    potential_target.startswith("https://")
+                    and len(potential_target) > 8
+                ):
+                    target = potential_target
 
-            # Basic HTTP
-            elif potential_target.startswith("http://") and len(potential_target) > 7:
-                target = potential_target
+                # Basic HTTP
+                elif (
+                    potential_target.startswith("http://")
+                    and len(potential_target) > 7
+                ):
+                    target = potential_target
 
-            # Basic relative url
-            elif potential_target.startswith("/"):
-                target = urljoin(url, potential_target)
+                # Basic relative url
+                elif potential_target.startswith("/"):
+                    target = urljoin(url, potential_target)
 
-            # Idiotic youtube redirections
-            elif "youtube.com/redirect?" in url:
-                target = "https://" + potential_target
+                # Idiotic youtube redirections
+                elif "youtube.com/redirect?" in url:
+                    target = "https://" + potential_target
 
-    if target is None:
-        return url
+        # NOTE: a target embedded in the url is always shorter than the url.
+        # Anything else (e.g. a redirect-looking parameter sitting in the
+        # hostname, that urljoin glues back into the very same url) is not a
+        # redirection and would be inferred over and over again.
+        if target is None or len(target) >= len(url):
+            return url
 
-    if recursive:
-        return infer_redirection(target, recursive=True)
+        if not recursive:
+            return target
 
-    return target
+        url = target
